@@ -4,6 +4,7 @@ CONSTANTS
  Shapes <- ShOk1
  MaxFaults = 0
  MaxCrashes = 0
+ MaxIdxLoss = 0
  InlineAt = 0
  Interval = 1
  MBs = {80}
